@@ -499,7 +499,8 @@ def represent_distance_matrix_rows_as_distributions(DX, max_d):
         DX + 1j * np.arange(len(DX))[:, None], return_counts=True)
     # Type is signed integer to allow subtractions.
     optimal_int_type = determine_optimal_int_type(len(DX))
-    DX_rows_distributons = np.zeros((len(DX), max_d + 1), dtype=optimal_int_type)
+    # (int(): max_d is a scalar of the distance dtype and 127 + 1 wraps in int8)
+    DX_rows_distributons = np.zeros((len(DX), int(max_d) + 1), dtype=optimal_int_type)
     # Construct index pairs for distance frequencies, so that the
     # frequencies of larger distances appear on the left.
     distance_frequencies_index_pairs = \
